@@ -57,8 +57,9 @@ Theorem C16_nothing_buffered_after_failure : forall D cd cf chunks (s s1 : rstat
 Proof. exact nothing_buffered_after_failure. Qed.
 Print Assumptions C16_nothing_buffered_after_failure.
 
-(* ---- running total: each data frame header adds its declared length; a new message restarts from 0 ---- *)
-Theorem C16_running_total : forall D cd cf (s : rstate D) f, fb_is_ctl (f_op f) = false ->
+(* ---- running total: each data frame header adds its declared length; a new message restarts from 0 (while the
+   connection has not been failed: afterwards the message hooks are not dispatched any more, upstream 18d9c61a) ---- *)
+Theorem C16_running_total : forall D cd cf (s : rstate D) f, fb_is_ctl (f_op f) = false -> failed (cn D s) = false ->
   mtotal D (ms D (fst (on_frame_begin D cd cf s f))) =
     (if inside D (ms D s) then mtotal D (ms D s) else 0) + f_len f.
 Proof. exact on_frame_begin_total. Qed.
